@@ -89,13 +89,9 @@ Theorem C02_render_never_panics : forall c gt gm pg sym idx,
   is_panic (fst (page_render c gt gm pg sym idx)) = false.
 Proof. exact page_render_no_panic. Qed.
 
-(* every offered page renders — PARTIAL: proved for the paginator (joinSink/GetAt): under
-   budget_ok joinSink succeeds and every page plus the browse entries it carries (as measured
-   by Menu.Sizes, one LF each) fits `remaining`, so the final Sizer.Check cannot fail for
-   lack of space.  Not proved: the lift to page_render, i.e. that the final string is
-   len(pre-render) + len(page rows) + nav bytes long (needs: the template mentions the sink
-   exactly once; labels resolve to themselves and the separator is ":" — otherwise Menu.Sizes
-   mis-measures, finding K-C02-labelsize). *)
+(* every offered page renders — the paginator (joinSink/GetAt): under budget_ok joinSink
+   succeeds and every page plus the browse entries it carries (as measured by Menu.Sizes, one
+   LF each) fits `remaining`.  The lift to Page.Render follows below. *)
 Theorem C02_offered_page_renders_partial : forall vs remaining ms,
   vs <> [] -> rows_ok vs = true -> rows_size vs < 4294967296 -> len vs < 65536 ->
   budget_ok vs remaining ms = true ->
@@ -124,12 +120,79 @@ Proof.
   vm_compute. auto.
 Qed.
 
+(* every offered page renders — through Page.Render, symbol sink.  For a page as the VM builds it
+   (sizer attached before the Map, fresh cursors, ordinary menu, both browse entries) with exactly
+   one zero-size symbol k mapped (single_sink), a template of the placeholder fragment that
+   mentions k exactly once, rows_ok, the guard excluding K-C02-labelsize (separator ":", browse
+   labels resolve to themselves) and budget_ok computed from the pre-render s (the page without
+   the sink): every index below the page count n of joinSink renders Ok — so every offered
+   next/previous entry leads to a page that renders — and every index from n on is an error. *)
+Theorem C02_offered_page_renders_page_partial : forall c gt gm pg sym z0 m k v src a b s pg3,
+  p_sizer pg = Some z0 -> z_crsrs z0 = [] -> z_sink z0 = k -> 0 < z_out z0 -> z_out z0 < 4294967296 ->
+  p_menu pg = Some m -> m_sink m = false -> m_keep m = true -> m_page_count m = 0 ->
+  b_next_avail (m_browse m) = true -> b_prev_avail (m_browse m) = true ->
+  m_sep m = default_sep ->
+  title_for gm m (b_next_title (m_browse m)) = Ok (b_next_title (m_browse m)) ->
+  title_for gm m (b_prev_title (m_browse m)) = Ok (b_prev_title (m_browse m)) ->
+  k <> [] -> single_sink c k (p_map pg) -> alookup k (p_map pg) = Some v ->
+  (forall x, is_panic (gt x) = false) ->
+  gt sym = Ok src -> tpl_parse (tpl_source (p_err pg) (p_extra pg) src) = Some (a ++ TVar k :: b) ->
+  tmentions k a = false -> tmentions k b = false ->
+  page_render_inner gt gm (page_set_sizer pg (Some (sizer_add_cursor z0 0))) sym (blank k (p_map pg)) 0 = (Ok s, pg3) ->
+  len s < 4294967296 ->
+  rows_ok (split_on nl v) = true -> rows_size (split_on nl v) < 4294967296 -> len (split_on nl v) < 65536 ->
+  budget_ok (split_on nl v) (z_out z0 - len s) (browse_sizes (m_browse m)) = true ->
+  exists n r cs,
+    join_sink (split_on nl v) (z_out z0 - len s) (browse_sizes (m_browse m)) [0] = (Ok (r, n), cs)
+    /\ 0 < n
+    /\ (forall i, i < n -> exists out pg', page_render c gt gm pg sym i = (Ok out, pg'))
+    /\ (forall i, n <= i -> exists e, fst (page_render c gt gm pg sym i) = Err e).
+Proof. exact page_offered_renders. Qed.
+
+(* the same for the menu as sink (MSINK): the sink rows are the resolved menu lines; the template
+   text around the appended "\n{{._menu}}" instantiates to xa / xb with the page's values *)
+Theorem C02_offered_page_renders_msink_partial : forall c gt gm pg sym z0 m src a b xa xb lines,
+  p_sizer pg = Some z0 -> z_crsrs z0 = [] -> 0 < z_out z0 -> z_out z0 < 4294967296 ->
+  p_menu pg = Some m -> m_sink m = true -> m_page_count m <= 1 ->
+  b_next_avail (m_browse m) = true -> b_prev_avail (m_browse m) = true ->
+  m_sep m = default_sep ->
+  title_for gm m (b_next_title (m_browse m)) = Ok (b_next_title (m_browse m)) ->
+  title_for gm m (b_prev_title (m_browse m)) = Ok (b_prev_title (m_browse m)) ->
+  NoDup (map fst (p_map pg)) -> no_sink c (p_map pg) ->
+  menu_lines (title_for gm m) (m_sep m) (m_items m) = Some lines -> lines <> [] ->
+  (forall x, is_panic (gt x) = false) ->
+  gt sym = Ok src ->
+  tpl_parse (tpl_source (p_err pg) menu_sink_extra src) = Some (a ++ TVar menu_sink_key :: b) ->
+  (forall w, (forall nm, nm <> menu_sink_key -> alookup nm w = alookup nm (p_map pg)) ->
+     tpl_exec a w = Ok xa /\ tpl_exec b w = Ok xb) ->
+  len xa + len xb <= z_out z0 ->
+  rows_ok lines = true -> rows_size lines < 4294967296 -> len lines < 65536 ->
+  budget_ok lines (z_out z0 - (len xa + len xb)) (browse_sizes (m_browse m)) = true ->
+  exists n r cs (pages : list (list bytes)),
+    join_sink lines (z_out z0 - (len xa + len xb)) (browse_sizes (m_browse m)) [0] = (Ok (r, n), cs)
+    /\ List.concat pages = lines /\ len pages = n /\ 0 < n
+    /\ (forall i p, nth_error pages i = Some p ->
+          exists pg', page_render c gt gm pg sym (N.of_nat i)
+            = (Ok ((xa ++ join_with [nl] p ++ xb)
+                   ++ opt_menu (join_with [nl] (browse_lines (m_browse m) default_sep
+                                                  (N.of_nat i + 1 <? n) (0 <? N.of_nat i)))), pg'))
+    /\ (forall i, i < n -> exists out pg', page_render c gt gm pg sym i = (Ok out, pg'))
+    /\ (forall i, n <= i -> exists e, fst (page_render c gt gm pg sym i) = Err e).
+Proof. exact page_offered_renders_msink. Qed.
+
 (* non-vacuity: six rows over four pages satisfy every hypothesis of the partial theorems *)
 Example C02_nonvacuous :
   let vs := map s2b ["aaaa"; "bbbb"; "cccc"; "dddd"; "eeee"; "ffff"]%string in
   rows_ok vs = true /\ budget_ok vs 24 (0, 7, 7, 14) = true
   /\ (exists r cs, join_sink vs 24 (0, 7, 7, 14) [0] = (Ok (r, 4), cs))
-  /\ partition_ok vs 24 (0, 7, 7, 14) = true /\ pages_fit vs 24 (0, 7, 7, 14) = true.
+  /\ partition_ok vs 24 (0, 7, 7, 14) = true /\ pages_fit vs 24 (0, 7, 7, 14) = true
+  (* ... and through Page.Render: size 32, template "T\n{{.foo}}", one menu item; the pre-render is
+     8 bytes, budget_ok holds with 24 bytes left, pages 0..3 render and pages 4, 5 are errors *)
+  /\ fst (page_render_inner wit_budget_tpl (fun k => Ok k)
+            (page_set_sizer wit_pages_page (Some (sizer_add_cursor (new_sizer 32) 0))) (s2b "node")
+            (blank (s2b "foo") (p_map wit_pages_page)) 0) = Ok (s2b "T" ++ [nl; nl] ++ s2b "1:one")
+  /\ map (fun i => is_ok (fst (page_render wit_pages_cache wit_budget_tpl (fun k => Ok k) wit_pages_page (s2b "node") i)))
+         [0; 1; 2; 3; 4; 5] = [true; true; true; true; false; false].
 Proof. vm_compute. repeat split; eauto. Qed.
 
 Print Assumptions C02_pages_partition_partial.
@@ -140,5 +203,7 @@ Print Assumptions C02_browse_entries.
 Print Assumptions C02_past_end_is_error.
 Print Assumptions C02_render_never_panics.
 Print Assumptions C02_offered_page_renders_partial.
+Print Assumptions C02_offered_page_renders_page_partial.
+Print Assumptions C02_offered_page_renders_msink_partial.
 Print Assumptions C02_offered_page_renders_refuted_budget.
 Print Assumptions C02_offered_page_renders_refuted_budget_page.
